@@ -307,6 +307,34 @@ RunTx(st, codes, block, call, sc) ==
         post |-> IF r.ok THEN r.x.st ELSE st, log |-> xf.log, rlog |-> r.x.rlog, used |-> r.x.pos - 1]
 
 (* ------------------------------------------------------------------------ *)
+(* calls outside transactions and the empty chain                           *)
+EmptyState == [bank |-> [a \in {} |-> ZeroRow], reg |-> [c \in {} |-> 0], cs |-> [c \in {} |-> 0]]
+Block0 == [h |-> 12345, t |-> 1571797419]
+
+MaxOf(S) == IF S = {} THEN 0 ELSE CHOOSE m \in S : \A y \in S : y <= m
+
+(* calls outside transactions; result [ok, codes, block, val] *)
+AdminCall(cd, blk, call) ==
+    CASE call.k = "store_code" ->
+           LET id == MaxOf(DOMAIN cd) + 1 IN
+           [ok |-> TRUE, val |-> id, block |-> blk,
+            codes |-> PutFn(cd, id, [creator |-> call.creator, flavour |-> call.flavour, ck |-> "k" \o ToString(id)])]
+      [] call.k = "store_code_with_id" ->
+           IF call.id = 0 \/ call.id \in DOMAIN cd THEN [ok |-> FALSE, val |-> 0, block |-> blk, codes |-> cd]
+           ELSE [ok |-> TRUE, val |-> call.id, block |-> blk,
+                 codes |-> PutFn(cd, call.id, [creator |-> call.creator, flavour |-> call.flavour, ck |-> "k" \o ToString(call.id)])]
+      [] call.k = "duplicate_code" ->
+           IF call.id \notin DOMAIN cd THEN [ok |-> FALSE, val |-> 0, block |-> blk, codes |-> cd]
+           ELSE LET id == MaxOf(DOMAIN cd) + 1 IN
+                [ok |-> TRUE, val |-> id, block |-> blk, codes |-> PutFn(cd, id, cd[call.id])]
+      [] call.k = "set_block" ->
+           [ok |-> TRUE, val |-> 0, block |-> [h |-> call.h, t |-> call.t], codes |-> cd]
+      [] call.k = "next_block" ->
+           [ok |-> TRUE, val |-> 0, block |-> [h |-> blk.h + 1, t |-> blk.t + 5], codes |-> cd]
+
+IsAdmin(call) == call.k \in {"store_code", "store_code_with_id", "duplicate_code", "set_block", "next_block"}
+
+(* ------------------------------------------------------------------------ *)
 (* declarative characterisations over the log                               *)
 
 (* entry i is visible at log position j: it happened before and was not rolled back by then *)
